@@ -34,7 +34,9 @@ pub fn base_spec(c: &Cfg, seed: u64) -> CaseSpec {
         peer: PeerSpec { ack_every: c.every, ..PeerSpec::conformant(T) },
         rules: vec![],
         write_budget: None,
-        max_events: (50 * (4 * n as usize + 8)).max(10_000),
+        // 50x the fault-free event count; very long transfers get 6x (a pathological run of a 65 537-block transfer
+        // to a 13 M event cap costs a quarter of an hour and 2 GB per shard)
+        max_events: if n > 5000 { 6 * (4 * n as usize + 8) } else { (50 * (4 * n as usize + 8)).max(10_000) },
         pre_existing: 0,
     }
 }
